@@ -229,11 +229,11 @@ def st_paths_case(draw):
                         levels=(1, 2), bases=("sto-3g", "6-31g"), min_elec=2))
     return {"mol": mol, "nldf": nldf, "dm": draw(G.st_dm(uks=False)), "npts": draw(st.integers(30, 80)),
             "seed": draw(st.integers(0, 2**31 - 1)), "plan_type": draw(st.sampled_from(["gaussian", "spline"])),
-            "interp": draw(st.sampled_from(["onsite_direct", "onsite_spline"]))}
+            "interp": draw(st.sampled_from(["onsite_direct", "onsite_spline"])), "warm": draw(st.booleans())}
 
 
 @subcheck("C02", "nldf_fast_vs_reference_path", st_paths_case, quick=64, thorough=800, tolerances=TOL, shrink=False,
-          rule="same generator; the fast interpolators used in SCF calculations (onsite_direct / onsite_spline through "
+          rule="same generator (in half of the cases already used once for a different density); the fast interpolators used in SCF calculations (onsite_direct / onsite_spline through "
                "PyscfNLDFGenerator.get_features on the CIDER grid) vs the reference-grade train_gen path evaluated at the same "
                "grid points with the same inner grid, and Gaussian vs spline plan through the same path: max over points "
                "(density > 1% of max) of the difference relative to max|feature| <= 2e-3 for the interpolators (measured 1.5e-4) "
@@ -257,6 +257,12 @@ def nldf_fast_vs_reference_path(case, ctx):
     gen = PyscfNLDFGenerator.from_mol_and_settings(mol, grids.grids_indexer, 1, settings, plan_type=case["plan_type"],
                                                    interpolator_type=case["interp"])
     gen.interpolator.set_coords(grids.coords)
+    if case.get("warm"):
+        # the features are a function of the density handed in, not of what the generator was used for before: half of
+        # the cases evaluate a different density (another molecule-independent rescaling per row) on the generator first
+        ctx.event("generator_used_before")
+        other_rho = np.ascontiguousarray(rho_in * np.array([0.37, -0.8, 1.3, 0.6, 0.45][: len(rho_in)])[:, None])
+        gen.get_features(other_rho)
     fast = np.asarray(gen.get_features(np.ascontiguousarray(rho_in)))[:, idx]
     ref = np.asarray(_nldf_desc_getter(mol, grids, dm, settings, inner_grids=grids, plan_type=case["plan_type"]))[:, idx]
     other = "spline" if case["plan_type"] == "gaussian" else "gaussian"
